@@ -280,8 +280,8 @@ theorem DInv.steps {s : State} (h : DInv s) (hi : Inv s) (ops : List Op) : DInv 
   | nil => exact h
   | cons op ops ih => exact ih (h.step hi op) (hi.step op)
 
-theorem ok_of_inv {s : State} (hi : Inv s) (hd : DInv s) : ok s = true := by
-  unfold Timers.ok deliveredOk
+theorem ok2_of_inv {s : State} (hi : Inv s) (hd : DInv s) : ok2 s = true := by
+  unfold Timers.ok2 deliveredOk
   rw [hi.ok1, Bool.true_and, Bool.and_eq_true, nodupB_iff]
   refine ⟨(hmap_sub s.target).nodup hd.nodup, ?_⟩
   cases he : s.target.exit with
